@@ -4,18 +4,21 @@ per-check actuals from checks.d + evidence, seeded changes from seeded/*/meta.js
 import json, os, re
 V = os.path.dirname(os.path.dirname(os.path.abspath(__file__)))
 def checks_table():
-    rows = ["| id | level | deciding technique | evaluations / distinct (quick, seed 1) | test wall | extra phases |", "|---|---|---|---|---|---|"]
+    rows = ["| id | level | deciding technique | last run in evidence/: tier, evaluations / distinct, wall | last thorough run (evidence-thorough/): evaluations / distinct, wall | extra phases |", "|---|---|---|---|---|---|"]
     for f in sorted(os.listdir(os.path.join(V, "checks.d"))):
         pid = f[:-5]; spec = json.load(open(os.path.join(V, "checks.d", f)))
         try: ev = json.load(open(os.path.join(V, "evidence", pid + ".json")))
         except Exception: ev = {}
         c = ev.get("coverage", {})
+        try: evt = json.load(open(os.path.join(V, "evidence-thorough", pid + ".json")))
+        except Exception: evt = {}
+        ct = evt.get("coverage", {})
         extra = []
         for p in spec.get("phases") or []:
             if p.get("race"): extra.append("-race (%s)" % p.get("name", "race"))
             if p.get("overlay"): extra.append("std-lib overlay")
         kf = len(c.get("known_findings_matched") or {})
-        rows.append("| %s | %s | %s | %s / %s | %.0f s | %s%s |" % (pid, spec["level"], spec["technique"], c.get("evaluations", "-"), c.get("distinct_nontrivial", "-"), ev.get("wall_s", 0), ", ".join(extra), (" known findings matched: %d" % kf) if kf else ""))
+        rows.append("| %s | %s | %s | %s: %s / %s, %.0f s | %s / %s, %.0f s | %s%s |" % (pid, spec["level"], spec["technique"], ev.get("tier", "-"), c.get("evaluations", "-"), c.get("distinct_nontrivial", "-"), ev.get("wall_s", 0), ct.get("evaluations", "-"), ct.get("distinct_nontrivial", "-"), evt.get("wall_s", 0), ", ".join(extra), (" known findings matched: %d" % kf) if kf else ""))
     return "\n".join(rows)
 def seeds_table():
     rows = ["| seeded change | property | what it does / needs | caught by |", "|---|---|---|---|"]
